@@ -271,51 +271,73 @@ def name_class(n, tables):
     return 'v' if n in PLAIN else n
 
 
-def expr_features(exprs):
-    f = set()
+def features(tables, names=(), exprs=(), more=()):
+    """the features of a statement that name its input class: special names it binds, selector kinds in its expressions"""
+    f = {name_class(n, tables) for n in names} - {'v'}
+    f = {'name=' + x for x in f}
     for e in exprs:
         for s in e:
-            if s['sel'] == 'key':
-                f.add('keyed-lookup')
-            elif s['sel'] == 'idx':
-                f.add('indexed-lookup')
-            elif s['sel'] == 'bad':
-                f.add('malformed-segment')
-    return ','.join(sorted(f)) or 'plain'
+            if s['sel'] != 'none':
+                f.add({'key': 'keyed-lookup', 'idx': 'indexed-lookup', 'bad': 'malformed-segment'}[s['sel']])
+    return '[' + ','.join(sorted(f | set(more))) + ']'
 
 
 def tok_class(t, tables):
     k = t['k']
+    arity = ['arity-mismatch'] if t['nfmt'] != len(t['args']) else []
     if k == 'define':
-        return f"define:lvalue={name_class(t['names'][0], tables)}:expr={expr_features([t['src']])}"
+        return 'define' + features(tables, t['names'], [t['src']])
     if k in ('print', 'comment'):
-        return f"{k}:specifiers={t['nfmt']}/args={len(t['args'])}:expr={expr_features(t['args'])}"
+        return k + features(tables, (), t['args'], arity)
     if k == 'write_file':
-        return (f"write_file:keys={'+'.join(sorted(t['kw'])) or 'none'}:specifiers={t['nfmt']}/args={len(t['args'])}"
-                f":expr={expr_features(t['args'] + [t['src']])}")
+        keys = [] if set(t['kw']) == {'filename', 'contents'} else ['keys=' + ('+'.join(sorted(t['kw'])) or 'none')]
+        return 'write_file' + features(tables, (), t['args'] + [t['src']], arity + keys)
     if k == 'loop':
         kw = set(t['kw'])
         if kw == COLL:
-            return f"loop-collection:variable={name_class(t['names'][0], tables)}:expr={expr_features([t['src']])}"
+            return 'loop-collection' + features(tables, t['names'][:1], [t['src']])
         if {'map', 'body'} <= kw and kw <= {'map', 'body', 'key', 'value'}:
             form = {(True, True): 'key-and-value', (True, False): 'key', (False, True): 'value',
                     (False, False): 'neither-key-nor-value'}['key' in kw, 'value' in kw]
-            names = ','.join([f"key={name_class(t['names'][0], tables)}"] * ('key' in kw)
-                             + [f"value={name_class(t['names'][1], tables)}"] * ('value' in kw))
-            same = ':key=value' if 'key' in kw and 'value' in kw and t['names'][0] == t['names'][1] else ''
-            return f"loop-map:{form}:{names or '-'}{same}:expr={expr_features([t['src']])}"
+            names = [t['names'][0]] * ('key' in kw) + [t['names'][1]] * ('value' in kw)
+            same = ['key=value'] if len(names) == 2 and names[0] == names[1] else []
+            return f'loop-map:{form}' + features(tables, names, [t['src']], same)
         return 'loop-malformed:keywords=' + '+'.join(sorted(kw))
     return 'statement:' + k
 
 
-def req_class(req):
-    def one(e):
+PLAIN_FIELDS = {'name', 'count', 'view', 'item', 'item.name', 'item.leaf.tag', 'parent'}
+
+
+def req_class(req, tables=None):
+    """names the entries of a request block that are not plain (a plain entry sets a valid field once, with a value, with no
+    or an ordinary input parameter); e.g. request[item,item.name], request[name/p=builtin(print)], request[parent%project]"""
+    bases = {}
+    for e in req:
+        if e['path']:
+            bases[e['path'][0]] = bases.get(e['path'][0], 0) + 1
+    params = [e['p'] for e in req if e['p']]
+    out = []
+    for e in req:
         d = entry_dict(e)
+        pc = name_class(e['p'], tables) if e['p'] and tables else (e['p'] or '')
+        plain = ('value' in d and d.get('field') in PLAIN_FIELDS and 'frob' not in d and d['value'] != 'GREEN'
+                 and bases[e['path'][0]] == 1 and pc in ('', 'v') and params.count(e['p']) <= 1)
+        if plain:
+            continue
         s = d.get('field', '(no field)') + ('=' + d['value'] if d.get('value') in ('RED', 'GREEN') else '')
         s += '' if 'value' in d else '(no value)'
-        s += '/p=' + d['input_parameter'] if 'input_parameter' in d else ''
-        return s + ('/spurious-keyword' if 'frob' in d else '')
-    return 'request[' + ','.join(one(e) for e in req) + ']'
+        s += '/p=' + pc if pc else ''
+        out.append(s + ('/spurious-keyword' if 'frob' in d else ''))
+    return 'request[' + ','.join(out) + ']'
+
+
+def entry_text(e):
+    d = entry_dict(e)
+    s = d.get('field', '(no field)') + ('=' + d['value'] if d.get('value') in ('RED', 'GREEN') else '')
+    s += '' if 'value' in d else '(no value)'
+    s += '/p=' + d['input_parameter'] if 'input_parameter' in d else ''
+    return s + ('/spurious-keyword' if 'frob' in d else '')
 
 
 def outcome(v):
@@ -337,14 +359,15 @@ def case_text(c):
         elif t['k'] == 'loop':
             s = f"loop[{'+'.join(sorted(t['kw']))}]({expr_text(t['src'])};{','.join(t['names'])}){{"
         parts.append(s)
-    return req_class(c['req']) + ' ' + ' ; '.join(parts)
+    return 'request[' + ','.join(entry_text(e) for e in c['req']) + '] ' + ' ; '.join(parts)
 
 
 # ---------------------------------------------------------------------------------------------------------------------
 # seeded random configurations beyond the enumerated vocabulary (judged by SampleCfgTrace only)
 def random_cases(rnd, n, tables):
     F = tables['fields']
-    names = ['x', 'y', 'z', 'w', 'class', 'print', 'response', 'items']
+    plain_names = ['x', 'y', 'z', 'w', 'k', 'v']
+    special = ['class', 'print', 'response', 'items']
     entries = [dict(path=p, res=r, val=v, sp=False, p=ip) for p, r, v, ip in [
         (['name'], '', 'x', ''), (['name'], '', 'x', 'x'), (['count'], '', '3', 'y'), (['view'], '', 'RED', ''),
         (['view'], '', 'GREEN', ''), (['item', 'name'], '', 'x', ''), (['item', 'leaf', 'tag'], '', 'x', 'z'),
@@ -378,6 +401,7 @@ def random_cases(rnd, n, tables):
             r = rnd.random()
             if depth and r < 0.2:
                 prog.append(END); depth -= 1; scopes.pop(); continue
+            names = plain_names + (special if rnd.random() < 0.08 else [])
             fresh = [n_ for n_ in names if n_ not in roots] or names
             nm = rnd.choice(fresh if rnd.random() < 0.9 else names)
             if r < 0.45:
@@ -408,119 +432,179 @@ def random_cases(rnd, n, tables):
 
 
 # ---------------------------------------------------------------------------------------------------------------------
+def sample_error_classes():
+    from gapic.samplegen_utils import types
+    return {n for n, v in vars(types).items() if isinstance(v, type) and issubclass(v, types.SampleError)}
+
+
+SAMPLE_ERRORS = set()
+
+
+class Findings:
+    """violations, one per input class (key): [count, first summary, first replay]"""
+
+    def __init__(self):
+        self.found = {}
+
+    def report(self, key, summary, replay):
+        if key in self.found:
+            self.found[key][0] += 1
+        else:
+            self.found[key] = [1, summary, replay]
+
+
+def compare(c, res, tables, fnd):
+    """spec -> code, step by step.  Returns True iff every step agrees with the prediction."""
+    ev = res['events']
+    pred = [dict(o, k='request' if i == 0 else 'stmt') for i, o in enumerate(c['obs'])]
+    if c['verdict'] == 'accepted':
+        pred.append(dict(verdict='accepted', defined=c['obs'][-1]['defined'], k='finish'))
+    for i, (p, e) in enumerate(zip(pred, ev)):
+        pd = sorted(p['defined'], key=lambda d: d['n'])
+        if p['verdict'] == e['verdict'] and (p['verdict'] not in ('running', 'accepted') or pd == e['defined']):
+            continue
+        cls = req_class(c['req'], tables) if i == 0 else 'finish' if p['k'] == 'finish' else tok_class(c['prog'][i - 1], tables)
+        if p['verdict'] != e['verdict'] and e['verdict'] not in SAMPLE_ERRORS | {'running', 'accepted'}:
+            key = f"{cls}:raised={e['verdict']}"           # no verdict of the validator at all
+            what = f"predicted {p['verdict']}, but {e['verdict']} was raised (no samplegen error)"
+        elif p['verdict'] != e['verdict']:
+            key = f"{cls}:predicted={outcome(p['verdict'])}:observed={outcome(e['verdict'])}"
+            what = f"predicted {p['verdict']}, observed {e['verdict']}"
+        else:
+            key = f"{cls}:defined-differs"
+            what = f"variables in scope: predicted {pd}, observed {e['defined']}"
+        fnd.report(key, f'step {i} of {case_text(c)}: {what}', dict(case=c, events=ev, config=res.get('config')))
+        return False
+    if len(pred) != len(ev):
+        fnd.report('steps:count-differs', f'{case_text(c)}: predicted {len(pred)} steps, observed {len(ev)}',
+                   dict(case=c, events=ev, config=res.get('config')))
+        return False
+    return True
+
+
+def validate(chk, label, traces, owners, tables, fnd):
+    """code -> spec: batches through SampleCfgTrace; total verdicts (validate_all re-runs after a rejection)."""
+    pos = 0
+    nruns = nacc = nrej = 0
+    while pos < len(traces):
+        chunk = traces[pos:pos + 60000]
+        accepted, rejected, runs = tlc.validate_all('SampleCfgTrace', 'SampleCfgTrace.cfg', chunk, max_rejects=25, timeout=3000)
+        for r3 in runs:
+            chk.states += r3.distinct; chk.transitions += r3.generated
+        nruns += len(runs); nacc += accepted; nrej += len(rejected)
+        for idx, t, info in rejected:
+            c = owners[pos + idx]
+            ne = info.get('next_event')
+            if isinstance(ne, dict):
+                cls = (req_class(ne['req'], tables) if ne['ev'] == 'request' else 'finish' if ne['ev'] == 'finish'
+                       else tok_class(ne['tok'], tables))
+                key = f"trace:{cls}:observed={outcome(ne['verdict'])}"
+            else:
+                key = 'trace:end-of-trace'
+            fnd.report(key, f'SampleCfgTrace rejected the recorded behaviour of {case_text(c)}: {info}', dict(case=c, trace=t, info=info))
+        # validate_all stops after max_rejects rejections: go on behind the last one
+        pos += (rejected[-1][0] + 1) if len(rejected) >= 25 else len(chunk)
+    chk.traces += nacc
+    chk.tlc_runs.append(dict(label=f'SampleCfgTrace batch {label}', runs=nruns, accepted=nacc, rejected=nrej))
+
+
 def main(chk, args):
     quick = chk.tier == 'quick'
     rnd = random.Random(chk.seed)
-    # 1. the specification satisfies its rules within the bounds; liveness on the tiny scope; the mutants do not
+    procs = 4 if quick else 8
+    # 1. the specification satisfies its rules within the bounds (no state but a final one is stuck); it is live on the tiny
+    #    scope; every mutant is rejected by an invariant
     r = tlc.run('SampleCfg', 'SampleCfg.small.cfg' if quick else 'SampleCfg.full.cfg', workers=8, deadlock=True, timeout=1500)
     chk.add_tlc(r, 'SampleCfg model check')
-    r = tlc.run('SampleCfg', 'SampleCfg.live.cfg', workers=4, deadlock=True, timeout=600)
+    r = tlc.run('SampleCfg', 'SampleCfg.live.cfg', workers=4, deadlock=True, timeout=900)
     chk.add_tlc(r, 'SampleCfg liveness (tiny scope)')
     mcfg = open(os.path.join(tlc.SPEC, 'SampleCfg.mutant.cfg')).read()
     rejected_by = {}
     for m in MUTANTS:
-        rm = tlc.run('SampleCfg', mcfg.replace('"none"', f'"{m}"'), workers=4, deadlock=True, timeout=600)
+        rm = tlc.run('SampleCfg', mcfg.replace('Mutant = "none"', f'Mutant = "{m}"'), workers=2, deadlock=True, timeout=600)
         if rm.ok or not (rm.violated or '').startswith('Inv_'):
             raise core.MachineryError(f'SampleCfg mutant {m} not rejected by an invariant: {rm.summary()}')
         rejected_by[m] = rm.violated
     chk.extra['mutants_rejected_by'] = rejected_by
-    # 2. spec -> code cases
-    emits = [('SampleCfg.emit.small.cfg', {})] if quick else [('SampleCfg.emit.full.cfg', {}), ('SampleCfg.emit.req.cfg', {})]
-    emits.append(('SampleCfg.emit.sim.cfg', dict(simulate=3000 if quick else 40000, depth=12, seed=chk.seed)))
-    cases, seen, tables = [], set(), None
+    # 2. spec -> code cases, one emission scope at a time
+    scopes = ['small', 'nest', 'req'] if quick else ['full', 'nest', 'len3', 'req3', 'names', 'exprs', 'forms']
+    emits = [(f'SampleCfg.emit.{n}.cfg', {}) for n in scopes]
+    emits.append(('SampleCfg.emit.sim.cfg', dict(simulate=2000 if quick else 30000, depth=16, seed=chk.seed)))
+    SAMPLE_ERRORS.update(sample_error_classes())
+    sample_errors = SAMPLE_ERRORS
+    fnd = Findings()
+    seen = set()
+    tables = None
+    chk.extra['cases_by_cfg'] = {}; chk.extra['predicted_verdicts'] = {}
     for cfg, kw in emits:
         cs, r2 = tlc.emit_cases('SampleCfg', cfg, deadlock=False, timeout=1500, **kw)
         chk.add_tlc(r2, f'SampleCfg case emission {cfg}')
         if not cs or not r2.tagged.get('TABLES'):
             raise core.MachineryError(f'no cases emitted by {cfg}')
         tables = json.loads(json.loads(r2.tagged['TABLES'][0]))
-        new = 0
+        del r2
+        cases = []
         for c in cs:
-            k = json.dumps([c['req'], c['prog']], sort_keys=True)
+            k = hash(json.dumps([c['req'], c['prog']], sort_keys=True))
             if k not in seen:
-                seen.add(k); cases.append(c); new += 1
-        chk.extra.setdefault('cases_by_cfg', {})[cfg] = new
-    chk.exhaustive = True       # every case of the enumerated scopes is executed (the simulated and random ones are samples on top)
-    extra = random_cases(rnd, 400 if quick else 6000, tables)
-    results = run_all(cases + extra, tables, 1 if quick else 8)
-    # 3. spec -> code comparison, statement by statement
-    found = {}        # key -> [count, summary, replay]
-
-    def report(key, summary, replay):
-        if key in found:
-            found[key][0] += 1
-        else:
-            found[key] = [1, summary, replay]
-
+                seen.add(k); cases.append(c)
+        del cs
+        chk.extra['cases_by_cfg'][cfg] = len(cases)
+        results = run_all(cases, tables, procs)
+        traces, owners = [], []
+        for c, res in zip(cases, results):
+            ev = res['events']
+            if outcome(ev[-1]['verdict']) != res['plain'] or ev[-1]['verdict'] == 'running':
+                raise core.MachineryError(f"the observed run ({ev[-1]['verdict']}) and the plain run ({res['plain']}) differ: {case_text(c)}")
+            chk.case(case_text(c), nontrivial=len(c['prog']) > 0 or len(c['req']) > 0)
+            chk.extra['predicted_verdicts'][c['verdict']] = chk.extra['predicted_verdicts'].get(c['verdict'], 0) + 1
+            if compare(c, res, tables, fnd):        # a diverging behaviour is reported once, by the comparison
+                traces.append(dict(events=ev)); owners.append(c)
+        if len(chk.samples) < 3 and cases:
+            i = len(cases) // 2
+            chk.sample(dict(case=case_text(cases[i]), predicted=cases[i]['verdict'], config=results[i].get('config'),
+                            steps=[(e['tok']['k'] if e['ev'] == 'stmt' else e['ev'], e['verdict']) for e in results[i]['events']]))
+        del results
+        if quick and len(traces) > 10000:
+            idx = sorted(rnd.sample(range(len(traces)), 10000))
+            traces = [traces[i] for i in idx]; owners = [owners[i] for i in idx]
+        validate(chk, cfg, traces, owners, tables, fnd)
+        del traces, owners, cases
+    chk.exhaustive = True       # every configuration of the enumerated scopes is executed; the simulated and random ones come on top
+    # 3. beyond the enumerated vocabulary: seeded random configurations judged by the trace specification only
+    extra = random_cases(rnd, 200 if quick else 2500, tables)
+    results = run_all(extra, tables, procs)
     traces, owners = [], []
-    for c, res in zip(cases + extra, results):
+    for c, res in zip(extra, results):
         ev = res['events']
-        final = ev[-1]['verdict'] if ev[-1]['verdict'] != 'running' else None
-        if final is None:
-            raise core.MachineryError(f'recording ended without a verdict: {case_text(c)}')
-        if outcome(final) != res['plain']:
-            raise core.MachineryError(f'the observed run ({final}) and the plain run ({res["plain"]}) differ: {case_text(c)}')
-        traces.append(dict(events=ev)); owners.append(c)
-        if c['obs'] is None:
-            chk.case('random:' + case_text(c), nontrivial=len(c['prog']) > 0)
-            continue
-        chk.case(case_text(c), nontrivial=len(c['prog']) > 0 or len(c['req']) > 0)
-        pred = [dict(o, k='request' if i == 0 else 'stmt') for i, o in enumerate(c['obs'])]
-        if c['verdict'] == 'accepted':
-            pred.append(dict(verdict='accepted', defined=c['obs'][-1]['defined'], k='finish'))
-        for i, (p, e) in enumerate(zip(pred, ev)):
-            pd = sorted(p['defined'], key=lambda d: d['n'])
-            if p['verdict'] == e['verdict'] and (p['verdict'] not in ('running', 'accepted') or pd == e['defined']):
-                continue
-            cls = req_class(c['req']) if i == 0 else 'finish' if p['k'] == 'finish' else tok_class(c['prog'][i - 1], tables)
-            if p['verdict'] != e['verdict']:
-                key = f"{cls}:predicted={outcome(p['verdict'])}:observed={outcome(e['verdict'])}"
-                what = f"predicted {p['verdict']}, observed {e['verdict']}"
-            else:
-                key = f"{cls}:defined-differs"
-                what = f"variables in scope: predicted {pd}, observed {e['defined']}"
-            report(key, f'step {i} of {case_text(c)}: {what}', dict(case=c, events=ev, config=res.get('config')))
-            break
-        else:
-            if len(pred) != len(ev):
-                report('steps:count-differs', f'{case_text(c)}: predicted {len(pred)} steps, observed {len(ev)}',
+        if outcome(ev[-1]['verdict']) != res['plain'] or ev[-1]['verdict'] == 'running':
+            raise core.MachineryError(f"the observed run ({ev[-1]['verdict']}) and the plain run ({res['plain']}) differ: {case_text(c)}")
+        chk.case('random:' + case_text(c), nontrivial=True)
+        last = ev[-1]
+        if last['verdict'] not in sample_errors and last['verdict'] != 'accepted':
+            # no action of the specification ends in a verdict outside ErrorClasses (Inv_Verdict): rejected without asking TLC
+            cls = req_class(last['req'], tables) if last['ev'] == 'request' else tok_class(last['tok'], tables)
+            fnd.report(f"trace:{cls}:raised={last['verdict']}", f"{case_text(c)}: raised {last['verdict']}, which is no samplegen error",
                        dict(case=c, events=ev, config=res.get('config')))
-    # 4. code -> spec: batched trace validation
-    if quick and len(traces) > 6000:
-        idx = sorted(rnd.sample(range(len(cases)), 6000 - len(extra))) + list(range(len(cases), len(traces)))
-        traces = [traces[i] for i in idx]; owners = [owners[i] for i in idx]
-    accepted, rejected, runs = tlc.validate_all('SampleCfgTrace', 'SampleCfgTrace.cfg', traces, max_rejects=60, timeout=3000)
-    for r3 in runs:
-        chk.states += r3.distinct; chk.transitions += r3.generated
-    chk.tlc_runs.append(dict(label='SampleCfgTrace batch', runs=len(runs), accepted=accepted, rejected=len(rejected)))
-    chk.traces += accepted
-    for idx, t, info in rejected:
-        c = owners[idx]
-        ne = info.get('next_event')
-        if isinstance(ne, dict):
-            cls = (req_class(ne['req']) if ne['ev'] == 'request' else 'finish' if ne['ev'] == 'finish' else tok_class(ne['tok'], tables))
-            key = f"trace:{cls}:observed={outcome(ne['verdict'])}"
-        else:
-            key = 'trace:end-of-trace'
-        report(key, f'SampleCfgTrace rejected the recorded behaviour of {case_text(c)}: {info}', dict(case=c, trace=t, info=info))
-    for key in sorted(found):
-        n, summary, replay = found[key]
+            continue
+        traces.append(dict(events=ev)); owners.append(c)
+    validate(chk, 'random', traces, owners, tables, fnd)
+    chk.extra['random_beyond_vocabulary'] = len(extra)
+    for key in sorted(fnd.found):
+        n, summary, replay = fnd.found[key]
         chk.violation(key, f'{n} case(s), first: {summary}', replay)
     chk.rule = ('cases = sample configurations enumerated by TLC (SampleCfg.emit.*.cfg: request entries x statement lists of define / '
                 'print / comment / write_file / loop (collection, map with key / value / both / neither, malformed keyword sets) / '
-                'unknown keyword, loop bodies to depth 2) plus a seeded -simulate sample over the wide vocabulary; '
+                'unknown keyword, loop bodies to depth 2, up to 3 statements) plus a seeded -simulate sample over the wide vocabulary '
+                '(up to 5 statements) plus seeded random configurations (up to 7 statements, depth 3) judged by SampleCfgTrace only; '
                 'non-trivial = at least one request entry or statement; distinct by (request, statement list)')
-    for c, res in list(zip(cases, results))[:1] + list(zip(cases, results))[-2:]:
-        chk.sample(dict(case=case_text(c), predicted=c['verdict'], config=res.get('config'), events=[(e['tok']['k'], e['verdict']) for e in res['events']]))
     chk.assumptions += ['the API (Resp / Item / Leaf / GetReq, one map with message values, one with scalar values, a oneof, an enum, '
                         'a resource with two patterns) is built from the tables of the specification',
                         'statements of a block are handed to the real validate_response one call per statement (a subclass in the '
                         'harness); the same configuration is also validated by the unmodified class in two calls and the verdicts must agree',
-                        'after a rejection var_defs_ is not compared']
-    chk.extra['cases'] = len(cases); chk.extra['random_beyond_vocabulary'] = len(extra)
-    chk.extra['verdicts'] = {}
-    for c in cases:
-        chk.extra['verdicts'][c['verdict']] = chk.extra['verdicts'].get(c['verdict'], 0) + 1
+                        'after a rejection var_defs_ is not compared',
+                        'named deviations of the specification: D1 (an indexed / keyed terminal keeps the shape of the collection), '
+                        'D2 (a map is a collection of entries)']
 
 
 main.level = 'model_checking'
